@@ -51,16 +51,18 @@ def rect_sq_dist(point, rect):
     return d_x * d_x + d_y * d_y
 
 
-def check_case(seg, rect):
-    """seg, rect given in the numeric types handed to the library. Returns [(clause, msg)]."""
-    desc = f"clip_segment({seg!r}, {rect!r})"
+def check_case(seg, rect, as_tuples=False):
+    """seg, rect given in the numeric types handed to the library. Returns [(clause, msg)].
+    as_tuples: hand points over as (x, y) tuples instead of [x, y] lists."""
+    desc = f"clip_segment({seg!r}, {rect!r})" + (" [points as tuples]" if as_tuples else "")
+    conv = tuple if as_tuples else list
     fseg = tuple((frac(p[0]), frac(p[1])) for p in seg)
     frect = tuple((frac(p[0]), frac(p[1])) for p in rect)
     scale = max([F(1)] + [abs(v) for p in fseg + frect for v in p])
     tol2 = (REL_TOL * scale) ** 2
     try:
-        (accept, result), calls = clip_counted([list(seg[0]), list(seg[1])],
-                                               [list(rect[0]), list(rect[1])])
+        (accept, result), calls = clip_counted([conv(seg[0]), conv(seg[1])],
+                                               [conv(rect[0]), conv(rect[1])])
     except LoopBudget:
         return [("loop", f"{desc} evaluated the region code more than 200 times (no convergence)")]
     except core.CaseTimeout:
@@ -152,6 +154,9 @@ def _chunk(args):
     for rect in rects:
         for seg in segs:
             bad = check_case(seg, rect)
+            if name == "int":
+                bad += check_case(seg, rect, as_tuples=True)
+                part.count("cases")
             part.count("cases")
             fseg = tuple((frac(p[0]), frac(p[1])) for p in seg)
             frect = tuple((frac(p[0]), frac(p[1])) for p in rect)
@@ -163,7 +168,8 @@ def _chunk(args):
             for clause, msg in bad:
                 part.violation(f"{clause}:{name}:{seg!r}:{rect!r}", msg,
                                {"kind": "clip", "seg": [list(seg[0]), list(seg[1])],
-                                "rect": [list(rect[0]), list(rect[1])]})
+                                "rect": [list(rect[0]), list(rect[1])],
+                                "as_tuples": "as tuples" in msg})
     part.sample({"lattice": name, "segment": [list(p) for p in segs[len(segs) // 3]],
                  "rectangle": [list(p) for p in rects[0]]}, limit=1)
     return part
@@ -200,4 +206,4 @@ def run(ctx):
 def replay(case):
     seg = tuple(tuple(p) for p in case["seg"])
     rect = tuple(tuple(p) for p in case["rect"])
-    return [m for _c, m in check_case(seg, rect)]
+    return [m for _c, m in check_case(seg, rect, case.get("as_tuples", False))]
